@@ -26,7 +26,7 @@ func isSupportedIPv6Partial(ip net.IP) bool {
 		// Deprecated IPv4-compatible IPv6 addresses [RFC4291] and IPv6 site-
 		//   local unicast addresses [RFC3879] MUST NOT be included in the
 		//   address candidates.
-		isZeros(ip[0:12]) || // !(IPv4-compatible IPv6)
+		(isZeros(ip[0:12]) && !(isZeros(ip[12:15]) && ip[15] == 1)) || // !(IPv4-compatible IPv6); ::1 is the loopback
 		ip[0] == 0xfe && ip[1]&0xc0 == 0xc0 { // !(IPv6 site-local unicast)
 		return false
 	}
